@@ -117,7 +117,7 @@ def c01_case(rng, idx, params):
     if params.get("kinds"):
         spec, step = gen_cfg(rng, specs.gen_spec(rng, params["kinds"]))
     n = rng.randint(0, params.get("size", 60))
-    stream, meta = gen.gen_stream(rng, n, step=step)
+    stream, meta = gen.gen_stream(rng, n, price_style=gen.style_for(rng, spec["kind"]), step=step)
     (init, chunks), shape = gen.gen_schedule(rng, n)
     scn = {"spec": spec, "stream": stream, "init": init, "chunks": chunks}
     bad = c01_check(scn)
@@ -188,7 +188,7 @@ def c02_check(scn):
 def c02_case(rng, idx, params):
     spec, step = gen_cfg(rng, gen_any_spec(rng, 0.3))
     n = rng.randint(0, params.get("size", 40))
-    stream, meta = gen.gen_stream(rng, n, step=step)
+    stream, meta = gen.gen_stream(rng, n, price_style=gen.style_for(rng, spec["kind"]), step=step)
     if rng.random() < 0.15:
         spec["ha"] = True
     if rng.random() < 0.2 and n > 4:
@@ -298,7 +298,7 @@ def c14_check(scn):
 def c14_case(rng, idx, params):
     spec, step = gen_cfg(rng, gen_any_spec(rng, 0.15), allow_tf=rng.random() < 0.5)
     n = rng.randint(2, params.get("size", 40))
-    stream, meta = gen.gen_stream(rng, n, step=step)
+    stream, meta = gen.gen_stream(rng, n, price_style=gen.style_for(rng, spec["kind"]), step=step)
     prog = []
     left = n
     for _ in range(rng.randint(2, params.get("ops", 14))):
